@@ -23,6 +23,8 @@ def jobs_for(tier, rng):
                 m["rew"] = [[[rng.choice([-2, 2]) for _ in row] for row in sa] for sa in m["rew"]]
                 m["v0"] = [rng.choice([-4, 0, 4]) for _ in range(m["ns"])]
                 gen.fix_dups(m)
+            if rng.random() < 0.2:
+                gen.add_rare(rng, m)          # a rare catastrophic event (2^-127 x 2^127), see tabular.make_problem
             job = {"mdp": m, "kind": kind, "gamma": g,
                    "eps": [rng.choice([1, 1, 3, 5]), rng.choice([0, 1, 2, 3])],
                    "test": rng.choice(["span", "max_diff"]), "calls": [60], "cert": True,
@@ -35,6 +37,7 @@ def jobs_for(tier, rng):
                 job["reset"] = rng.random() < 0.3
                 if rng.random() < 0.4:
                     m["render"]["has_init_policy"] = True
+                    m["render"]["init_policy_on_instance"] = rng.random() < 0.4
                     m["pol0"] = [rng.randrange(m["na"]) for _ in range(m["ns"])]
                 pi.append(job)
             else:
